@@ -28,10 +28,19 @@ git checkout -q -- .
 echo "compiles=$compiles suite=$suite demo_patched_exit=$demo_patched demo_unchanged_exit=$demo_base"
 # the registered checks
 cd /verif
-tools/runmutant.sh "$out/patch.diff" "$id" quick > /tmp/wt-confirm.check.log 2>&1; q=$?
+runcheck() { # tier, extra args...; SEEDED_DIRECT=1: do not touch /repo, hand the patched binary to the simulator
+  tier="$1"; shift
+  if [ "${SEEDED_DIRECT:-0}" = 1 ]; then
+    ZSIM_VERIF_DIR=/verif ZSIM_ZERV=/tmp/wt-confirm.zerv-patched ZSIM_SHIM=/verif/.cache/clock.so ZSIM_PROXY="${SEEDED_ZSIM_DIR:-/verif/zsim/target/release}/zsim-git" \
+      "${SEEDED_ZSIM_DIR:-/verif/zsim/target/release}/zsim" run "$id" "$tier" --no-evidence "$@"
+  else
+    tools/runmutant.sh "$out/patch.diff" "$id" "$tier" "$@"
+  fi
+}
+runcheck quick > /tmp/wt-confirm.check.log 2>&1; q=$?
 caught_by=none; detail=$(grep -E "^violation:" /tmp/wt-confirm.check.log | head -2 | cut -c1-300)
 if [ $q -eq 1 ]; then caught_by=quick; else
-  tools/runmutant.sh "$out/patch.diff" "$id" thorough --cap 420 > /tmp/wt-confirm.check2.log 2>&1; t=$?
+  runcheck thorough --cap 420 > /tmp/wt-confirm.check2.log 2>&1; t=$?
   if [ $t -eq 1 ]; then caught_by=thorough; detail=$(grep -E "^violation:" /tmp/wt-confirm.check2.log | head -2 | cut -c1-300); fi
 fi
 echo "quick_exit=$q caught_by=$caught_by"
@@ -45,6 +54,6 @@ meta={"property":id_,"name":name,"origin":"fresh sub-agent given only the proper
  "needs_to_manifest":notes.strip().split("\n\n")[0][:1500] if notes else "",
  "confirmed":{"compiles":compiles=="true","existing_suite":suite,"demo_exit_with_change":int(dp) if dp else None,"demo_exit_without_change":int(db) if db else None,
    "ran":["git apply patch.diff in /tmp/wt-confirm; cargo build --offline --bin zerv","cargo nextest run --workspace --no-fail-fast --offline (failing set compared with the 53 baseline failures)","sh demo.sh <patched zerv> ; sh demo.sh <unchanged zerv>"]},
- "checks":{"quick_exit":int(q),"caught_by":caught,"first_violation":detail,"ran":[f"tools/runmutant.sh patch.diff {id_} quick" ] + ([f"tools/runmutant.sh patch.diff {id_} thorough --cap 420"] if caught!="quick" else [])}}
+ "checks":{"quick_exit":int(q),"caught_by":caught,"first_violation":detail,"ran":[("zsim run (patched binary handed to the simulator, /repo untouched) " if __import__("os").environ.get("SEEDED_DIRECT")=="1" else "tools/runmutant.sh patch.diff ")+f"{id_} quick" ] + ([f"tools/runmutant.sh patch.diff {id_} thorough --cap 420"] if caught!="quick" else [])}}
 json.dump(meta,open(out+"/meta.json","w"),indent=1)
 PY
